@@ -222,6 +222,127 @@ def run(rng, tier, res=None):
         ob = " , ".join(f"{o[0][i]} {o[1][i]} {' '.join(str(v) for v in o[2][i])}" for i in range(n))
         lines.append(line); obs.append(ob); metas.append(meta)
         res.add_case(line, nontrivial=(n >= 2)); res.hit("convert"); res.hit("convert_n1" if n == 1 else "convert_n>1")
+
+    # ---------------- translated converters / load_json / parse_loader executed against the real ones ----------------
+    # (Gen/ConvImp.lean, Gen/ParseImp.lean through DriverGen.lean: validates the trusted reading Model/PyStruct.lean, PyMeas.lean)
+    class _Rec:
+        """stands in for the module `np` / `j` inside converter.py while one converter runs: records what is written."""
+        def __init__(self, real):
+            self._real = real; self.rows = None; self.kw = None; self.obj = None
+        def __getattr__(self, k):
+            return getattr(self._real, k)
+        def savetxt(self, fname, X, **kw):
+            self.rows = [tuple(r) for r in X]; self.kw = kw
+            return self._real.savetxt(fname, X, **kw)
+        def dump(self, obj, f, **kw):
+            self.obj = obj
+            return self._real.dump(obj, f, **kw)
+
+    def sv(v):
+        if isinstance(v, (int, np.integer)) and not isinstance(v, bool):
+            return str(int(v))
+        return "f" + str(f32bits(float(v)))
+
+    glines, gobs, gmetas = [], [], []
+    for case in range(40 * scale):
+        n = rng.choice([0, 1, 2, 3, 5])
+        d = rng.choice([0, 1, 2, 4])
+        kind = rng.choice(["ok", "ok", "ok", "trunc", "trail", "negn", "negd", "short_header", "bigid"])
+        ids = [rng.choice([rng.randint(-2 ** 31, 2 ** 31 - 1), 2 ** 24 + 1 + rng.randint(0, 9), rng.randint(0, 99)]) for _ in range(n)]
+        labs = [rng.choice([rng.randint(1, 4), 0, -3, 2 ** 31 - 1]) for _ in range(n)]
+        fb = [[rng.choice([rng.getrandbits(32), 0x3f800000, 0x80000000, 0x7f800000, 0x00000001]) for _ in range(d)] for _ in range(n)]
+        hn, hd = n, d
+        if kind == "negn":
+            hn = -rng.randint(1, 3)
+        if kind == "negd":
+            hd = -rng.randint(1, 3)
+        raw = struct.pack("<iii", hn, rng.randint(0, 5), hd)
+        for i in range(n):
+            raw += struct.pack("<ii", ids[i], labs[i]) + b"".join(struct.pack("<I", w) for w in (fb[i] if hd >= 0 else []))
+        if kind == "trunc" and len(raw) > 12:
+            raw = raw[:len(raw) - rng.randint(1, min(7, len(raw) - 12))]
+        if kind == "trail":
+            raw += bytes(rng.getrandbits(8) for _ in range(rng.randint(1, 9)))
+        if kind == "short_header":
+            raw = raw[:rng.randint(0, 11)]
+        base = os.path.join(tmp, f"g{case % 3}")
+        with open(base + ".dat", "wb") as f:
+            f.write(raw)
+        parts = []
+        nan_payload = any(((w >> 23) & 0xff) == 0xff and (w & 0x7fffff) for r in fb for w in r)
+        for name, ext in (("opf2txt", "txt"), ("opf2csv", "csv"), ("opf2json", "json")):
+            rn, rj = _Rec(converter.np), _Rec(converter.j)
+            converter.np, converter.j = rn, rj
+            try:
+                import warnings
+                with warnings.catch_warnings():
+                    warnings.simplefilter("ignore")
+                    getattr(converter, name)(base + ".dat", base + "." + ext)
+                if ext == "json":
+                    top = rj.obj
+                    recs = top[list(top.keys())[0]] if isinstance(top, dict) and len(top) == 1 else None
+                    parts.append("ERR" if recs is None else " , ".join(
+                        " ".join(k + "=" + ("[" + " ".join(sv(x) for x in v) + "]" if isinstance(v, list) else sv(v)) for k, v in r.items()) for r in recs))
+                else:
+                    parts.append("ERR" if rn.rows is None else " , ".join(" ".join(sv(x) for x in r) for r in rn.rows))
+            except Exception:
+                parts.append("ERR")
+            finally:
+                converter.np, converter.j = rn._real, rj._real
+        # load_json on the file opf2json wrote (numpy turns the row into float64: ids / labels compared as ints, features as binary32)
+        try:
+            if parts[2] == "ERR":
+                raise ValueError
+            arr = loader.load_json(base + ".json")
+            lj = " , ".join(" ".join([str(int(r[0])), str(int(r[1]))] + ["f" + str(f32bits(float(x))) for x in r[2:]]) for r in arr)
+            if d == 0 and n:
+                lj = " , ".join(" ".join([str(int(r[0])), str(int(r[1]))]) for r in arr)
+        except Exception:
+            lj = "ERR"
+        parts.append(lj)
+        if nan_payload:
+            res.hit("gen_conv_nan_payload_skipped")      # a NaN's payload is not preserved by float32 -> float64 -> text
+            continue
+        gl = f"gconv {len(raw)} {ints(raw)}".replace("  ", " ").rstrip()
+        glines.append(gl); gobs.append(" | ".join(parts)); gmetas.append({"kind": kind, "n": n, "d": d, "raw": list(raw)})
+        res.add_case(gl, nontrivial=(n >= 2)); res.hit("gen_conv_" + kind)
+        if parts[0] == "ERR":
+            res.hit("gen_conv_raises")
+    for case in range(60 * scale):
+        r = rng.randint(0, 6)
+        c = rng.choice([1, 2, 3, 4])
+        if r == 0:
+            c = max(c, 2)      # the translation reads a matrix as its list of rows: one without rows has no column count, and is
+                               # read as having the label column (numpy raises IndexError for a 0 x 1 matrix) — translate_conv.py
+        K = rng.randint(1, 3)
+        kind = rng.choice(["seq", "seq", "gap", "neg", "from1", "any"])
+        M = [[rng.randint(-3, 9) for _ in range(c)] for _ in range(r)]
+        if c >= 2:
+            for i in range(r):
+                M[i][1] = {"seq": (i if i < K else rng.randrange(K)), "gap": rng.choice([0, 2, 3]), "neg": rng.choice([-1, 0, 1]),
+                           "from1": rng.randint(1, 2), "any": rng.randint(-1, 3)}[kind]
+        data = np.array(M, dtype=float).reshape(r, c)
+        try:
+            Xp, Yp = parser.parse_loader(data)
+            ob = " ".join(str(int(v)) for v in Yp) + " ; " + " , ".join(" ".join(str(int(v)) for v in row) for row in Xp)
+            if Yp.dtype.kind != "i":
+                viol("parse_loader returned labels that are not integers", {"matrix": M})
+        except Exception:
+            ob = "ERR"
+        gl = f"gparse {r} {c} {ints([v for row in M for v in row])}".replace("  ", " ").rstrip()
+        glines.append(gl); gobs.append(ob); gmetas.append({"kind": "parse_" + kind, "matrix": M})
+        res.add_case(gl, nontrivial=(r >= 2)); res.hit("gen_parse_" + kind); res.hit("gen_parse_raises" if ob == "ERR" else "gen_parse_returns")
+    gmodel = run_driver(glines, driver="DriverGen.lean", soft=True)
+    if gmodel is None:
+        res.disagreements.append({"stream": "stream", "case": 0, "kind": "gconv", "segments": [0, 1, 2, 3], "input": "(all)",
+                                  "impl": "-", "model": "DriverGen.lean does not run: a generated file it imports was not translated", "meta": {}})
+    else:
+        for k, (l, a, b) in enumerate(zip(glines, gobs, gmodel)):
+            if a != b:
+                sa, sb = a.split(" | "), b.split(" | ")
+                segs = [i for i in range(max(len(sa), len(sb))) if (sa[i] if i < len(sa) else None) != (sb[i] if i < len(sb) else None)]
+                res.disagreements.append({"stream": "stream", "case": k, "kind": l.split(" ", 1)[0], "segments": segs, "input": l[:400],
+                                          "impl": a[:400], "model": b[:400], "meta": gmetas[k]})
     shutil.rmtree(tmp, ignore_errors=True)
     compare(res, lines, obs, metas)
     return res
